@@ -514,7 +514,54 @@ def part_content_readers(ctx, res):
             res.violation(f"content-roundtrip-raised:{type(ex).__name__}", {"xml": xml, "exc": repr(ex)}, case)
 
 
+def part_own_tags(ctx, res):
+    """Every element class the library defines with a tag of its own is the class that parsing this tag yields
+    (the classes are enumerated from the class hierarchy, not from the registry they are checked against)."""
+    import importlib
+    import pkgutil
+
+    import odfdo
+    from odfdo import Element
+
+    for m in pkgutil.iter_modules(odfdo.__path__):
+        try:
+            importlib.import_module("odfdo." + m.name)
+        except Exception:
+            pass
+
+    def subs(c):
+        for s_ in c.__subclasses__():
+            yield s_
+            yield from subs(s_)
+
+    seen = set()
+    for C in subs(Element):
+        tag = C.__dict__.get("_tag")
+        if C in seen or not tag or "notodf" in tag:
+            continue
+        seen.add(C)
+        res.judge()
+        res.cls(("own-tag", C.__name__), True)
+        case = {"kind": "own-tag", "class": C.__name__, "tag": tag}
+        try:
+            got = [("from_tag", type(Element.from_tag(tag))), ("from_tag(xml)", type(Element.from_tag(f"<{tag}/>"))), ("parent.children", type(Element.from_tag(f"<text:section><{tag}/></text:section>").children[0]))]
+            try:
+                got.append(("instance.clone", type(C().clone)))
+            except (TypeError, ValueError):
+                pass
+        except Exception as ex:
+            res.violation(f"own-tag-raised:{C.__name__}:{type(ex).__name__}", {"tag": tag, "exc": repr(ex)}, case)
+            continue
+        for path, g in got:
+            if g is not C and not (g.__name__ == "Style" and tag.startswith("style:")):  # the generic Style class claims the style:* tags
+                res.violation(f"own-tag:wrong-class:{path}", {"class": C.__name__, "tag": tag, "got": g.__name__}, case)
+                break
+    res.count("classes_with_own_tag", len(seen))
+
+
 def run(ctx, res):
+    if ctx.shard == 2 % ctx.nshards:
+        part_own_tags(ctx, res)
     if ctx.shard == 0:
         part_text_args(ctx, res)
     if ctx.shard == 1 % ctx.nshards:
@@ -542,6 +589,12 @@ def replay(case):
             quick = False
         part_dispatch(_Q, res, only=case)
         return res.violations
+    if case.get("kind") == "own-tag":
+        class _C2:
+            shard = 2
+            nshards = 16
+        part_own_tags(_C2, res)
+        return [v for v in res.violations if v["case"] == case]
     if case.get("kind") == "content-reader":
         class _C1:
             shard = 1
